@@ -19,7 +19,7 @@ NA = {
 CHECKS = {
  "C03": dict(level="exploration", design="§5.1",
    text="On the finished graph of every (generated program, entropy seed) pair: successor and predecessor relations are exact inverses with no entry twice (by pointer identity, never by hash lookup, because merged returns change their key while sitting in other nodes' sets); every edge is a fall-through, a jump to the label written in the instruction, or the merge of a return into its function's exit, and none leaves an exit ecall; and against the harness's own reference edge model (an independent reader of the generator's dialect) every transfer an execution can make is an edge and no reachable instruction is reported unreachable. Exploration over programs x schedules.",
-   note="Clauses I3/I4 apply only to programs in the reference model's class (every path ends in ret or an exit ecall, all lines recognised by the harness's reader, ecall numbers set directly before the ecall) and trust that reader; I1/I2 trust nothing.",
+   note="Clauses I3/I4 apply only to programs in the reference model's class (every path ends in ret or an exit ecall, all lines recognised by the harness's reader, ecall numbers set directly before the ecall or flowing in one of the shapes the generator writes: copied from a returned value, spilled and reloaded, a local overwritten through a copy of sp or by a callee) and trust that reader; I1/I2 trust nothing.",
    technique="deterministic simulation: schedule search with structural invariants and a reference edge model"),
  "C11": dict(level="exploration", design="§5.4",
    text="On every schedule's finished graph separately: function entries are exactly the labels named by calls (read off the source text by the harness's own reader) or installed as interrupt handler; cfg.functions() has exactly those labels, all labels of one entry mapping to one function; each function's node list equals what an independent traversal reaches from its entry and per-node owner lists agree; each function has one exit, a return it reaches, every other return of it rewritten to lead to that exit; node-in-many-functions is reported iff two functions share a node. Workload rich in several labels per entry, interleaved bodies, forward and backward shared tails, fall-through entry, recursion, callers in dead code, 1-3 returns.",
@@ -30,19 +30,19 @@ CHECKS = {
    note="Trusted: the tick hook's sweep counts; the snapshot's textual rendering of facts (sorted).",
    technique="deterministic simulation: operation histories on a stateful object with snapshot equality"),
  "C06": dict(level="fault_enumeration", design="§5.2",
-   text="Crash- and hang-freedom under injected faults: generated worlds take content faults (torn, lost, replayed and interleaved writes, bit flips, byte substitutions, CRLF/CR, NUL, BOM, invalid UTF-8, a size multiplier), include-graph shapes (self-include, cycles, missing file, directory / dangling symlink / symlink loop in place of a file), reader faults (five error kinds x import index, enumerated from the run index, three reader personalities) in process, and system-call faults (failing n-th open/read/realpath, short reads, EINTR, TOCTOU redirect of the pretty printer's re-open; enumerated from the run index) through the real rva in nine output modes and both build profiles. Oracle: no panic (overflow checks and debug assertions on), no signal/abort/non-zero exit, import budget, tick bounds on the parse loop and on the sweeps of both analyses, CPU and address-space rlimits on every child, JSON mode prints JSON.",
-   note="The pure-input part of the property (all byte strings, grammar-level mutations) is only sampled through content faults; no grammar coverage is claimed. Output-stream faults (EPIPE) are not alarms. The CPU limit is far above a normal run (10 s; 120 s for multiplied inputs), so it fires on non-termination or blow-up only.",
+   text="Crash- and hang-freedom under injected faults: generated worlds take content faults (torn, lost, replayed and interleaved writes, bit flips, byte substitutions, CRLF/CR, NUL, BOM, invalid UTF-8, a size multiplier), include-graph shapes (self-include, cycles, missing file, directory / dangling symlink / symlink loop in place of a file), reader faults (five error kinds x import index, enumerated from the run index, three reader personalities) in process, and system-call faults (failing n-th open/read/realpath, short reads, EINTR, TOCTOU redirect of a re-open; enumerated from the run index) and environment faults (standard output on a full disk or a closed pipe, the base file under a name that is not UTF-8, a named pipe fed once in place of the base file) through the real rva in nine output modes and both build profiles. Oracle: no panic (overflow checks and debug assertions on), no signal/abort/non-zero exit (status 1 without a panic is accepted only when standard output was made to fail), no blocking (no-progress watchdog), import budget, tick bounds on the parse loop and on the sweeps of both analyses, CPU and address-space rlimits on every child, JSON mode prints JSON.",
+   note="The pure-input part of the property (all byte strings, grammar-level mutations) is only sampled through content faults; no grammar coverage is claimed. The CPU limit is far above a normal run (10 s; 120 s for multiplied inputs), so it fires on non-termination or blow-up only.",
    technique="deterministic simulation: content, reader and system-call fault injection with crash/hang oracle"),
  "C15": dict(level="fault_enumeration", design="§5.6",
    text="Refinement against the reference model 'textual inclusion, then the same analyzer': generated programs are cut at line boundaries into include trees (depth, sub-directories, several includes, missing file, self-include, two-cycle, file included twice) and linted through the in-memory FileReader under three reader personalities and a reader fault plan (five error kinds x import index), through the editor integration's real LSPFileReader (compiled in by path), and through the real CLI reader under file-system faults (failing n-th open, short reads, EINTR) and shapes (missing file, directory / dangling symlink / invalid UTF-8 in place of a file, an included file behind a directory symlink whose own includes climb out with ..); the diagnostics must equal those of the pasted single file mapped back through the line map, every failed include must yield exactly one error on its directive, everything else must still be analysed, and the run must end within the import budget. Fault enumeration over kind x instant for the reader faults, exploration for the program/cut space.",
-   note="Trusted: the cutter's line map (paste(cut(p)) = p by construction), the harness's model of which include fails (validated against the reader's import log on every run; a mismatch is counted, never reported). Worlds whose included file ends in an unterminated statement are excluded from the equality clause (line accounting, C07).",
+   note="Trusted: the cutter's line map (paste(cut(p)) = p by construction), the harness's model of which include fails (validated against the reader's import log on every run; a mismatch is counted, never reported). For a file that ends, without a newline, in the middle of a statement only the position of that statement's items is exempt (line accounting, C07/C09); the items themselves must agree.",
    technique="deterministic simulation: reader/file-system fault injection with refinement against a paste model"),
  "C18": dict(level="exploration", design="§5.7",
-   text="All 16 combinations of --json/--compact/--no-color/--all-files of the real rva process run on each generated world under one shared entropy seed (so channel differences cannot be schedule differences), plus the library call RVParser::run in process; parsers for the three formats recover the items and compare them (severity, title, file, line, columns), check the other-files counter, JSON shape, ordering within a file, severity-per-kind, colour stripping, and for every pretty item that the excerpt is the referenced line and the caret run sits under the reported columns.",
+   text="All 16 combinations of --json/--compact/--no-color/--all-files of the real rva process run on each generated world under one shared entropy seed (so channel differences cannot be schedule differences), plus the library call RVParser::run in process; parsers for the three formats recover the items and compare them per file selection (severity, title, file, line, columns; --json alone must list exactly the base file's items of --json --all-files), check the other-files counter, JSON shape, ordering within a file, severity-per-kind, colour stripping, and for every pretty item that the excerpt is the referenced line and the caret run sits under the reported columns; for a third of the worlds the pretty modes are run again with every open after the analysis' own opens redirected to other text (the file rewritten before the output): the output must not change.",
    note="Trusted: the harness's parsers of the compact and pretty formats (a line they cannot parse is itself reported as malformed output); path normalisation ('d/../x.s' = 'x.s').",
    technique="deterministic simulation: same-schedule cross-channel comparison of real process runs"),
  "C10": dict(level="exploration", design="§5.3",
-   text="Seeded search over hash/UUID schedules: each generated world (program cut into an include tree) is linted under K entropy seeds in process (library entry point and the CLI's pipeline) and, for a share of runs, by the real rva process in json/compact/pretty modes with and without --all-files under several VERIF_ENTROPY_SEED values; the diagnostic sequences must be identical and free of duplicates. Exploration is the right level: the schedule space is the product of SipHash keys and UUID draws and can only be sampled; reach is measured by order signatures.",
+   text="Seeded search over hash/UUID schedules: each generated world (program cut into an include tree) is linted under K entropy seeds in process (library entry point and the CLI's pipeline) and, for a share of runs, by the real rva process in json/compact/pretty/yaml/debug modes with and without --all-files under several VERIF_ENTROPY_SEED values; the diagnostic sequences must be identical and free of duplicates. Exploration is the right level: the schedule space is the product of SipHash keys and UUID draws and can only be sampled; reach is measured by order signatures.",
    note="Trusted: the entropy seam (self-tested each invocation), the normalisation of diagnostics (UUIDs replaced by file names). A clean batch is evidence, not proof.",
    technique="deterministic simulation: seeded hash/UUID schedule search, in process and whole process"),
 }
